@@ -27,7 +27,7 @@ OWNER = {
     "thread-died": "C01", "loop-exception": "C01", "logic-raised": "C01", "recv-raised": "C01",
     "rejected-line-had-effect": "C01", "connection-torn-down": "C01",
     "state-mismatch": "C04", "callback-missing": "C04", "callback-spurious": "C04",
-    "callback-args": "C04", "callback-before-state": "C04", "id-node-missing": "C04",
+    "callback-args": "C04", "callback-before-state": "C04", "id-node-missing": "C04", "callback-raise-escaped": "C04",
     "reply-missing": "C05", "reply-spurious": "C05", "reply-wrong": "C05",
     "emitted-malformed": "C05", "emitted-invalid": "C05", "misaddressed": "C05", "time-reply-wrong": "C05",
     "id-out-of-range": "C06", "id-reused": "C06", "id-request-raised": "C06", "id-known": "C06", "id-response-missing": "C06",
@@ -178,6 +178,7 @@ class NetRun:
         kind = "tcp" if self.flavour in ("tcp", "atcp") else ("mqtt" if broker else "plain")
         self.model = GatewayModel(self.version, kind)
         self.cb_raise = set(cfg.get("cb_raise", ()))
+        self.cb_raise_entries = []
         self.world.event_hook = self._event_hook
         self.fs.trace = self._fs_trace
         self.tick_times = []
@@ -272,7 +273,23 @@ class NetRun:
         if idx in self.cb_raise:
             self.faults["callback_raised"] = self.faults.get("callback_raised", 0) + 1
             self.world.callbacks.append(((msg.node_id, msg.child_id, int(msg.type), msg.ack, int(msg.sub_type), msg.payload), snap))
-            raise RuntimeError("simulated event callback failure")
+            if self.world.logic_log:
+                self.cb_raise_entries.append(self.world.logic_log[-1])  # the line being handled right now
+            # what an application's listener really raises varies: with a message, without one (bare assert, queue.Full,
+            # NotImplementedError), with several arguments, a lookup error whose str() is the repr of the key
+            kind = idx % 6
+            if kind == 0:
+                raise RuntimeError("simulated event callback failure")
+            if kind == 1:
+                raise NotImplementedError
+            if kind == 2:
+                import queue as _queue  # pylint: disable=import-outside-toplevel
+                raise _queue.Full()
+            if kind == 3:
+                raise KeyError(("node", msg.node_id))
+            if kind == 4:
+                raise OSError(5, "Input/output error", "/dev/null")
+            raise AssertionError()
         return snap
 
     def out_lines(self):
@@ -335,6 +352,10 @@ class NetRun:
                 if flds is not None and flds[2] == 3 and flds[4] in (22, 32):
                     # failing at wake-up instead of refusing the desired value at call time
                     self.add(vio("burst-raised", {"line": entry[0], "exc": res[1], "msg": res[2]}, exc=res[1]))
+                if any(entry is e for e in self.cb_raise_entries):
+                    # C04's side: the failure of the application's listener (or one made while dealing with it) got out of
+                    # message processing - "a callback that raises changes nothing else"
+                    self.add(vio("callback-raise-escaped", {"line": entry[0], "exc": res[1], "msg": res[2]}, exc=res[1]))
                 self.add(vio("logic-raised", {"line": entry[0], "exc": res[1], "msg": res[2]}, exc=res[1]))
         del self.world.logic_log[:]
         if fatal:
